@@ -82,11 +82,24 @@ def f(x, sel):
         z = z + UNDEF
     return z
 ''',
+    # a tagged ordinary variable next to an undefined global: probed through a category-restricted generic capture, the
+    # global is not among the instrumented variables and keeps Python's own semantics
+    "tag_undef": '''
+def f(x, sel):
+    k: "@Param" = x
+    z = k
+    if sel == 1:
+        return UNDEF
+    if sel == 2:
+        z = z + UNDEF
+    return z
+''',
 }
 
 # template -> (declared-only vars, undefined globals, an ordinary variable)
 SHAPE = {"decl": (["y"], [], "z"), "decl_caught": (["y"], [], "z"), "decl_late": (["w"], [], "z"), "undef": ([], ["UNDEF"], "z"),
          "undef_pass": ([], ["UNDEF"], "z"), "both": (["y"], ["UNDEF"], "z")}
+SHAPE_EXTRA = {"tag_undef": ([], ["UNDEF"], "z")}  # only with inst=generic-tag (see cases)
 
 
 def _contains_absent(v, ABSENT, depth=0):
@@ -146,6 +159,12 @@ def reference(tname, x, sel, supplied):
                 return ("nameerror", "UNDEF")
             z = z + S["UNDEF"]
         return ("ok", z, effs)
+    if tname == "tag_undef":
+        if sel == 1:
+            return ("ok", S["UNDEF"], effs) if "UNDEF" in S else ("nameerror", "UNDEF")
+        if sel == 2:
+            return ("ok", x + S["UNDEF"], effs) if "UNDEF" in S else ("nameerror", "UNDEF")
+        return ("ok", x, effs)
     raise ValueError(tname)
 
 
@@ -160,9 +179,9 @@ def build(case):
     p = case["params"]
     tname, inst, supply, how = p["template"], p["inst"], p["supply"], p["how"]
     twin = bool(case.get("vacuity_twin"))
-    declared, undefined, other = SHAPE[tname]
+    declared, undefined, other = {**SHAPE, **SHAPE_EXTRA}[tname]
     tmpl = {"name": "c16_" + tname, "src": SRC[tname] + "\ndef drive(a, b, c, d):\n    return f(a, b)\n", "funcs": ["f"]}
-    fpb = f"C16:{tname}:{'uninstrumented' if inst == 'other' else 'instrumented'}"
+    fpb = f"C16:{tname}:{'uninstrumented' if inst in ('other', 'generic-tag') else 'instrumented'}"
 
     def h(x: int, selv: int, V: int, W: int):
         sel = pick(selv, 3)
@@ -188,6 +207,9 @@ def build(case):
                 pr.subscribe(lambda d: events.append(dict(d)))
             elif inst == "generic":
                 pr = enter(probing("f > $v", env=ns, raw=True))
+                pr.subscribe(lambda d: events.append({d["v"].names[0]: d["v"].values[0]}))
+            elif inst == "generic-tag":  # category-restricted generic capture: only the tagged variable is instrumented
+                pr = enter(probing("f > $v:@Param", env=ns, raw=True))
                 pr.subscribe(lambda d: events.append({d["v"].names[0]: d["v"].values[0]}))
             elif inst == "ctx":  # the special variables are context captures of a probe focused on an ordinary variable
                 names = [k for k in declared + undefined]
@@ -288,6 +310,10 @@ def cases(tier, seed):
     for inst in ("other", "all"):  # ("named" would leave the function entirely uninstrumented: plain Python, not in scope)
         cs.append({"id": f"decl_late:inst={inst}:supply=w:overlay-tag",
                    "params": {"template": "decl_late", "inst": inst, "supply": ["w"], "how": "overlay-tag"}, "budget_s": 60})
+    cs.append({"id": "tag_undef:inst=generic-tag:supply=none:-",
+               "params": {"template": "tag_undef", "inst": "generic-tag", "supply": [], "how": "-"}, "budget_s": 60})
+    cs.append({"id": "decl_late:inst=generic-tag:supply=none:-",
+               "params": {"template": "decl_late", "inst": "generic-tag", "supply": [], "how": "-"}, "budget_s": 60})
     cs.append({"id": "decl:inst=all:supply=none:twin", "params": {"template": "decl", "inst": "all", "supply": [], "how": "-"},
                "vacuity_twin": True, "stop_on_refute": True, "budget_s": 30})
     return cs
